@@ -173,7 +173,7 @@ func (t *tables) lookup(a absString, dn string) (d, impl decision, err error) {
 		if a.alt != nil {
 			// the text is also a Base58Check string with a valid checksum: if that
 			// reading is an address, the property wants it accepted
-			if row, ok := t.b58[b58Key(t.canonB58(*a.alt), dn)]; ok && row.D.Accept {
+			if row, ok := t.b58[b58Key(t.canonB58(*a.alt), t.w.b58like[dn])]; ok && row.D.Accept {
 				return row.D, row.Impl, nil
 			}
 		}
@@ -191,28 +191,24 @@ func (t *tables) lookup(a absString, dn string) (d, impl decision, err error) {
 		}
 		d, impl = row.D, row.Impl
 		// the table is written for one prefix (BechLaws: the prefix names the networks)
-		fix := func(x *decision) {
-			if x.Accept {
-				x.Hrp = a.bech.Hrp
-				x.ForNets = nil
-				for _, r := range t.w.rows {
-					if r.Hrp == a.bech.Hrp {
-						x.ForNets = append(x.ForNets, r.Name)
-					}
-				}
-			}
+		// and the code's registry may never match the prefix (ImplDecodable)
+		if d.Accept {
+			d.Hrp, d.ForNets = a.bech.Hrp, t.w.hrpNets[a.bech.Hrp]
 		}
-		fix(&d)
-		fix(&impl)
+		if !t.w.implDecodable[a.bech.Hrp] {
+			impl = decision{}
+		} else if impl.Accept {
+			impl.Hrp, impl.ForNets = a.bech.Hrp, t.w.implHrpNets[a.bech.Hrp]
+		}
 		return d, impl, nil
 	case "pkhex":
-		row, ok := t.pkhex[pkhexKey(a.pkhex, dn)]
+		row, ok := t.pkhex[pkhexKey(a.pkhex, t.w.b58like[dn])]
 		if !ok {
 			return d, impl, fmt.Errorf("no row for abstract hex key %+v under %s", a.pkhex, dn)
 		}
 		return row, row, nil
 	default:
-		row, ok := t.b58[b58Key(t.canonB58(a.b58), dn)]
+		row, ok := t.b58[b58Key(t.canonB58(a.b58), t.w.b58like[dn])]
 		if !ok {
 			return d, impl, fmt.Errorf("no row for abstract base58 string %+v under %s", a.b58, dn)
 		}
@@ -384,6 +380,8 @@ func agrees(o observed, d decision, s string, a absString, strict bool) (bool, s
 }
 
 const keyV1Len20 = "decode:v1-program20-returned-as-v0-p2wpkh"
+const keyHrpOne = "hrp:one-character-prefix-never-decoded"
+const keyHrpUpper = "hrp:upper-case-registration-never-matched"
 const keyB58SegPrefix = "decode:base58-address-starting-like-a-segwit-prefix-rejected"
 
 // checkDecode offers s to DecodeAddress under default network dn and compares
@@ -412,6 +410,12 @@ func (t *tables) checkDecode(c *vrun.Ctx, s, dn, shape, what string, replay any)
 		if okImpl, _ := agrees(o, impl, s, a, false); okImpl && a.form == "bech" && a.alt != nil && d.Accept && !impl.Accept {
 			c.Violation(keyB58SegPrefix, fmt.Sprintf("DecodeAddress(%q, %s): %s (a valid Base58Check %s address whose text begins with the registered segwit prefix %q followed by its only later '1' is handed to the bech32 decoder and refused)",
 				s, dn, why, d.Kind, s[:strings.LastIndexByte(s, '1')]), rp)
+		} else if okImpl && a.form == "bech" && d.Accept && !impl.Accept && !t.w.implDecodable[a.bech.Hrp] {
+			key, how := keyHrpUpper, "is registered in upper case: chaincfg.Register stores the text as given, IsBech32SegwitPrefix lower-cases the query only"
+			if len(a.bech.Hrp) == 1 {
+				key, how = keyHrpOne, "has one character: DecodeAddress wants the last '1' at an index above 1"
+			}
+			c.Violation(key, fmt.Sprintf("DecodeAddress(%q, %s): %s (the prefix %q of a registered network %s, so its own segwit addresses are never taken for segwit addresses)", s, dn, why, a.bech.Hrp, how), rp)
 		} else if okImpl && a.form == "bech" && a.bech.Ver == 1 && d.String() != impl.String() {
 			c.Violation(keyV1Len20, fmt.Sprintf("DecodeAddress(%q): %s (bech32m string of a witness v1 program of 20 bytes comes back as a v0 P2WPKH address, which encodes to a different string and pays to a different script)", s, why), rp)
 		} else {
